@@ -3640,15 +3640,17 @@ class PyCdlib:
 
         return num_bytes_to_add
 
-    def _rm_joliet_dir(self, joliet_path):
-        # type: (bytes) -> int
+    def _find_joliet_dir_to_remove(self, joliet_path):
+        # type: (bytes) -> dr.DirectoryRecord
         """
-        An internal method to remove a directory from the Joliet portion of the ISO.
+        An internal method to look up the directory that is to be removed from
+        the Joliet portion of the ISO and to check that it can be removed.
+        Nothing on the ISO is changed.
 
         Parameters:
          joliet_path - The Joliet directory to remove.
         Returns:
-         The number of bytes to remove from the ISO for this Joliet directory.
+         The directory record of the Joliet directory.
         """
         if self.joliet_vd is None:
             raise pycdlibexception.PyCdlibInternalError('Tried to remove joliet dir from non-Joliet ISO')
@@ -3663,6 +3665,20 @@ class PyCdlib:
 
         if len(joliet_child.children) > 2:
             raise pycdlibexception.PyCdlibInvalidInput('Directory must be empty to use rm_directory')
+
+        return joliet_child
+
+    def _rm_joliet_dir(self, joliet_path):
+        # type: (bytes) -> int
+        """
+        An internal method to remove a directory from the Joliet portion of the ISO.
+
+        Parameters:
+         joliet_path - The Joliet directory to remove.
+        Returns:
+         The number of bytes to remove from the ISO for this Joliet directory.
+        """
+        joliet_child = self._find_joliet_dir_to_remove(joliet_path)
 
         num_bytes_to_remove = joliet_child.get_data_length()
         num_bytes_to_remove += self._remove_child_from_dr(joliet_child,
@@ -5197,6 +5213,36 @@ class PyCdlib:
             if len(child.children) > 2:
                 raise pycdlibexception.PyCdlibInvalidInput('Directory must be empty to use rm_directory')
 
+        # The directory is removed one namespace after the other.  Look up and
+        # check the Joliet and UDF directories as well before the first of them
+        # is removed, so that a path that is refused there is reported while
+        # nothing has been changed yet.
+        if joliet_path is not None:
+            joliet_path_bytes = self._normalize_joliet_path(joliet_path)
+            self._find_joliet_dir_to_remove(joliet_path_bytes)
+
+        if udf_path is not None:
+            if self.udf_root is None:
+                raise pycdlibexception.PyCdlibInvalidInput('Can only specify a UDF path for a UDF ISO')
+
+            udf_path_bytes = utils.normpath(udf_path)
+
+            if udf_path_bytes == b'/':
+                raise pycdlibexception.PyCdlibInvalidInput('Cannot remove base directory')
+
+            (udf_name, udf_parent) = self._udf_name_and_parent_from_path(udf_path_bytes)
+
+            # The name we were given is UTF-8, while the identifiers in the
+            # directory are stored as latin-1 or UTF-16; look the identifier
+            # up so that we remove it by the name it is stored under.
+            udf_ident = udf_parent.find_file_ident_desc_by_name(udf_name)
+            if not udf_ident.is_dir():
+                raise pycdlibexception.PyCdlibInvalidInput('Cannot remove a file with rm_directory (try rm_file instead)')
+
+            if udf_ident.file_entry is not None and len(udf_ident.file_entry.fi_descs) > 1:
+                raise pycdlibexception.PyCdlibInvalidInput('Directory must be empty to use rm_directory')
+
+        if iso_path is not None:
             num_bytes_to_remove += self._remove_child_from_dr(child,
                                                               child.index_in_parent)
 
@@ -5261,26 +5307,9 @@ class PyCdlib:
                                                        child.rock_ridge.dr_entries.ce_record.len_cont_area)
 
         if joliet_path is not None:
-            num_bytes_to_remove += self._rm_joliet_dir(self._normalize_joliet_path(joliet_path))
+            num_bytes_to_remove += self._rm_joliet_dir(joliet_path_bytes)
 
         if udf_path is not None:
-            if self.udf_root is None:
-                raise pycdlibexception.PyCdlibInvalidInput('Can only specify a UDF path for a UDF ISO')
-
-            udf_path_bytes = utils.normpath(udf_path)
-
-            if udf_path_bytes == b'/':
-                raise pycdlibexception.PyCdlibInvalidInput('Cannot remove base directory')
-
-            (udf_name, udf_parent) = self._udf_name_and_parent_from_path(udf_path_bytes)
-
-            # The name we were given is UTF-8, while the identifiers in the
-            # directory are stored as latin-1 or UTF-16; look the identifier
-            # up so that we remove it by the name it is stored under.
-            udf_ident = udf_parent.find_file_ident_desc_by_name(udf_name)
-            if not udf_ident.is_dir():
-                raise pycdlibexception.PyCdlibInvalidInput('Cannot remove a file with rm_directory (try rm_file instead)')
-
             num_extents_to_remove = udf_parent.remove_file_ident_desc_by_name(udf_ident.fi,
                                                                               self.logical_block_size)
             # Remove space (if necessary) in the parent File Identifier
